@@ -2,8 +2,11 @@
 
 Correspondence: the REAL `cij.core.mode_gamma.interpolate_modes` (and `lstsq_polyfit`, numpy `polyder/polyval` as used
 there, `Calculator._interpolate_modes`, `ModePlotter.plot_modes`) against the Lean model `CijModel/Interp.lean`
-(ops `c11.*`).  Polynomial methods (lsq_poly, lagrange, krogh): full values.  Library methods (spline, pchip, akima):
-the model supplies the node vectors it hands to the library (thinned, flipped, logged); the harness builds the scipy
+(ops `c11.*`).  Polynomial methods (lsq_poly, lagrange, krogh): full values.  pchip / akima: full values as well — scipy's
+PchipInterpolator / Akima1DInterpolator are modelled (`CijModel/PPoly.lean`: slope rules, Hermite pieces in PPoly's power basis, piece
+location with extrapolation); the classes themselves are compared op by op (`c11.pchip`, `c11.akima`) on generated node sets, and the
+real `interpolate_modes` output (after its thinning and flips) with the model's triple.  spline (FITPACK):
+the model supplies the node vectors it hands to the library (flipped, logged); the harness builds the scipy
 interpolant on exactly those nodes (the external call, a parameter of the model) and returns the samples (s, s', s'');
 the model finishes (exp, signs, loop, Gamma skip); the result is compared with the real function's output.
 
@@ -23,9 +26,13 @@ import numpy
 from harness.common import Ctx, Result, Disagreement, OracleFailure, enc, dec_arr, family_close, jsonable
 
 ASSUMPTIONS = [
-    "scipy UnivariateSpline / PchipInterpolator / Akima1DInterpolator are parameters of the model (samples s, s', s'' supplied "
-    "as data on the model's own node vectors); the contract 's' and s'' are the derivatives of s' is measured on every library "
-    "case by 5-point finite differences inside the sampled range",
+    "scipy UnivariateSpline (FITPACK) is a parameter of the model (samples s, s', s'' supplied as data on the model's own node vectors); "
+    "the contract 's' and s'' are the derivatives of s' is measured on every spline case by 5-point finite differences inside the "
+    "sampled range",
+    "scipy PchipInterpolator / Akima1DInterpolator (scipy 1.18.1: _cubic.py, PPoly.__call__, _ppoly.evaluate / find_interval) are MODELLED, "
+    "not assumed: `CijModel/PPoly.lean` is compared with the real classes on generated node sets (ops c11.pchip / c11.akima, values for "
+    "nu = 0,1,2 inside, outside and at the nodes; bit-for-bit agreement is counted, 1e-12 of the family scale is demanded); the compiled "
+    "_ppoly extension itself is outside the translator (no source installed) and tied by this run only",
     "scipy CubicHermiteSpline(x, y, dydx) has three required arguments (the model encodes the resulting TypeError of the 2-argument call)",
     "numpy.linalg.lstsq returns the least-squares solution for full-column-rank systems (compared with the exact rational solution)",
     "scipy.interpolate.lagrange builds monomial coefficients around ln V ~ 6 and is ill-conditioned for >= 5 nodes: its rounding "
@@ -41,7 +48,9 @@ TRUSTED_EXTRA = [
 ]
 
 METHODS = ["spline", "lagrange", "krogh", "pchip", "akima", "hermite", "lsq_poly"]
-LIB = ("spline", "pchip", "akima")
+LIB = ("spline", "pchip", "akima")     # methods whose kernel is a scipy object (tolerance class)
+LIBPARAM = ("spline",)                  # ... of which still a PARAMETER of the model (samples supplied by the harness)
+PPOLY = ("pchip", "akima")              # ... and modelled in CijModel/PPoly.lean
 POLY = ("lsq_poly", "lagrange", "krogh")
 NODE = ("lagrange", "krogh", "pchip", "akima", "hermite")
 EPS = 2.220446049250313e-16
@@ -114,6 +123,14 @@ def law_eval(law: dict, lnv):
     lnw = sum(bi * x ** i for i, bi in enumerate(b))
     gam = -sum(i * bi * x ** (i - 1) for i, bi in enumerate(b) if i >= 1)
     g = -sum(i * (i - 1) * bi * x ** (i - 2) for i, bi in enumerate(b) if i >= 2) + 0.0 * x
+    if law.get("kink"):
+        # piecewise-linear ln w in ln V (flat pieces, equal adjacent secants, secant sign changes); gamma/g are the a.e. derivatives
+        kx, ky = numpy.asarray(law["kink"]["x"], float), numpy.asarray(law["kink"]["y"], float)
+        xa = numpy.asarray(lnv, dtype=float)
+        lnw = numpy.interp(xa, kx, ky)
+        sl = numpy.diff(ky) / numpy.diff(kx)
+        idx = numpy.clip(numpy.searchsorted(kx, xa, side="right") - 1, 0, len(sl) - 1)
+        return lnw, -sl[idx], 0.0 * xa
     if law.get("A"):
         A, kap, ph = law["A"], law["kappa"], law["phi"]
         lnw = lnw + A * numpy.sin(kap * x + ph)
@@ -156,6 +173,15 @@ def gen_case(rng, method: str, order: int, nv: int, lawkind: str, small: bool = 
             elif lawkind == "smooth":
                 law.update(A=float(rng.uniform(0.01, 0.06)), kappa=float(rng.uniform(3.0, 12.0)),
                            phi=float(rng.uniform(0.0, 6.28)))
+            elif lawkind == "kinked":
+                # ln w piecewise linear with breakpoints AT the sampled volumes: slopes from a small set, so that the thinned node
+                # sets see zero secants (pchip: slope 0), equal adjacent secants (akima: vanishing weights -> fill value), sign changes
+                kx = numpy.sort(numpy.log(vols))
+                sl = rng.choice([-2.0, -1.0, -1.0, 0.0, 0.0, 0.5, 1.5], size=len(kx) - 1)
+                if rng.random() < 0.4:
+                    sl = numpy.sort(sl)[::-1] if rng.random() < 0.5 else -numpy.abs(sl)      # monotone data sets
+                ky = math.log(w0) + numpy.concatenate([[0.0], numpy.cumsum(sl * numpy.diff(kx))])
+                law["kink"] = {"x": [float(v) for v in kx], "y": [float(v) for v in ky]}
             row.append(law)
         laws.append(row)
     lnvols = numpy.log(vols)
@@ -207,7 +233,7 @@ def gen_cases(ctx: Ctx) -> List[dict]:
             if not ctx.thorough() and len(orders) > 5:
                 orders = sorted(set(orders[:4] + [orders[-1]] + [int(rng.choice(orders))]))
             for order in orders:
-                for lawkind in ("power", "poly", "smooth"):
+                for lawkind in ("power", "poly", "smooth") + (("kinked",) if method in PPOLY else ()):
                     for _ in range(reps):
                         cases.append(gen_case(rng, method, order, nv, lawkind))
     return cases
@@ -231,6 +257,15 @@ def gen_malformed(ctx: Ctx) -> List[dict]:
         c["freqs"] = numpy.asarray(c["freqs"])[::-1].tolist()
         c["malformed"] = True
         out.append(c)
+    # a zero / negative (imaginary) frequency of a non-acoustic mode at a volume the thinning keeps: ln w = -inf / nan reaches the constructor
+    for method in PPOLY:
+        for bad, tag in ((0.0, "zero-frequency"), (-7.5, "negative-frequency")):
+            c = gen_case(rng, method, 3, 6, "power", small=True)
+            fr = numpy.asarray(c["freqs"], float)
+            fr[0, c["nq"] - 1, c["np"] - 1] = bad
+            c["freqs"] = fr.tolist()
+            c["malformed"] = True; c["malformed_tag"] = tag
+            out.append(c)
     return out
 
 
@@ -260,13 +295,13 @@ def lib_samples(method: str, order: int, xs, ys, lnv):
 
 def ask_model(ctx: Ctx, cases: List[dict]) -> List[Any]:
     """-> per case ("ok", F, G, D) or ("error:<Type>",)"""
-    libidx = [i for i, c in enumerate(cases) if c["method"] in LIB]
+    libidx = [i for i, c in enumerate(cases) if c["method"] in LIBPARAM]
     nodes = ctx.driver.ask([dict(op="c11.nodes", **wire_case(cases[i])) for i in libidx])
     ops = []
     k = 0
     for i, c in enumerate(cases):
         op = dict(op="c11.interp", **wire_case(c))
-        if c["method"] in LIB:
+        if c["method"] in LIBPARAM:
             nd = nodes[k]; k += 1
             lnv = dec_arr(nd["lnv"])
             table, seen = [], set()
@@ -506,6 +541,12 @@ def fd_points(case):
         h = 0.04 * w
         for frac in (0.25, 0.5, 0.75):
             pts.append(a + frac * w); hs.append(h)
+    if case["method"] in PPOLY:
+        # both extrapolated regions (first / last cubic continued), out to where the qha grid reaches (ratio 1.45 -> 0.37 in ln V)
+        w0, w1 = xs[1] - xs[0], xs[-1] - xs[-2]
+        for d in (0.05, 0.2, 0.37):
+            pts.append(xs[0] - d); hs.append(0.04 * w0)
+            pts.append(xs[-1] + d); hs.append(0.04 * w1)
     return numpy.asarray(pts), numpy.asarray(hs)
 
 
@@ -829,6 +870,160 @@ def plot_correspondence(ctx: Ctx, case, res: Result):
             res.traces_validated += 1
 
 
+
+# ----------------------------------------------------------------------------- the scipy classes themselves
+PPOLY_KINDS = ("random", "integer", "equal_secants", "zigzag", "monotone", "affine", "near_threshold", "two_nodes")
+
+
+def gen_nodes(rng, kind: str):
+    """one node set (x strictly increasing, y) of 2..14 nodes"""
+    n = 2 if kind == "two_nodes" else int(rng.integers(3, 15))
+    sp = str(rng.choice(["uniform", "uneven", "very_uneven", "dyadic"]))
+    if kind in ("equal_secants", "near_threshold"):
+        sp = "dyadic"
+    if sp == "uniform":
+        x = 5.0 + 0.02 * numpy.arange(n)
+    elif sp == "uneven":
+        x = 5.0 + numpy.cumsum(rng.uniform(0.005, 0.05, size=n))
+    elif sp == "very_uneven":
+        x = 5.0 + numpy.cumsum(10.0 ** rng.uniform(-3.5, -0.5, size=n))
+    else:
+        x = 4.0 + numpy.cumsum(rng.choice([0.25, 0.5, 0.5, 1.0], size=n))        # exact in binary: secants of integer data are exact
+    if kind == "random" or kind == "two_nodes":
+        y = rng.normal(size=n) * 10.0 ** rng.uniform(-2, 2)
+    elif kind == "integer":
+        y = numpy.round(rng.normal(size=n) * 2.0)                                    # flat pieces, repeated values
+    elif kind == "equal_secants":
+        sl = rng.choice([-2.0, -1.0, 0.0, 0.0, 1.0, 1.0, 3.0], size=n - 1)
+        for i in range(n - 2):                                                       # runs of equal secants (Akima: both weights vanish)
+            if rng.random() < 0.55: sl[i + 1] = sl[i]
+        y = numpy.concatenate([[1.0], 1.0 + numpy.cumsum(sl * numpy.diff(x))])
+    elif kind == "zigzag":
+        y = numpy.cumsum(rng.uniform(0.1, 1.0, size=n) * numpy.where(numpy.arange(n) % 2 == 0, 1.0, -1.0))
+        if rng.random() < 0.5: y[int(rng.integers(n - 1)) + 1:] += 0.0               # keep
+        if rng.random() < 0.5:
+            k = int(rng.integers(n - 1)); y[k + 1] = y[k]                            # one flat piece between sign changes
+    elif kind == "monotone":
+        inc = rng.uniform(0.0, 1.0, size=n - 1) * (rng.random(n - 1) < 0.8)          # some zero increments
+        y = numpy.concatenate([[0.0], numpy.cumsum(inc)]) * (1.0 if rng.random() < 0.5 else -1.0)
+    elif kind == "affine":
+        y = float(rng.uniform(-3, 3)) * x + float(rng.uniform(-5, 5))
+    else:  # near_threshold: weights |dm| around break_mult * max
+        sl = rng.choice([0.0, 1.0, 2.0], size=n - 1).astype(float)
+        sl = sl + rng.choice([0.0, 1e-9, 2e-9, 5e-10, 1e-8], size=n - 1) * rng.choice([-1.0, 1.0], size=n - 1)
+        y = numpy.concatenate([[1.0], 1.0 + numpy.cumsum(sl * numpy.diff(x))])
+    return numpy.asarray(x, float), numpy.asarray(y, float)
+
+
+def gen_queries(rng, x):
+    """inside every piece, at every node (exact bits) and next to it, far and near outside on both sides"""
+    span = x[-1] - x[0]
+    q = [x.copy(), numpy.nextafter(x, numpy.inf), numpy.nextafter(x, -numpy.inf), 0.5 * (x[:-1] + x[1:]),
+         x[:-1] + rng.uniform(0.0, 1.0, size=len(x) - 1) * numpy.diff(x),
+         x[0] - span * numpy.array([1e-9, 0.01, 0.5, 3.0]), x[-1] + span * numpy.array([1e-9, 0.01, 0.5, 3.0]),
+         rng.uniform(x[0] - 0.4, x[-1] + 0.4, size=6)]
+    return numpy.concatenate(q)
+
+
+def scipy_ppoly(name: str, x, y, q):
+    """the real class, called as interpolate_mode_ppoly calls it -> array (3, len(q)) or 'error:<Type>'"""
+    import scipy.interpolate as si
+    cls = {"pchip": si.PchipInterpolator, "akima": si.Akima1DInterpolator}[name]
+    try:
+        with warnings.catch_warnings():
+            warnings.simplefilter("ignore")
+            with numpy.errstate(all="ignore"):
+                it = cls(x, y)
+                return numpy.stack([it(q, extrapolate=True), it(q, nu=1, extrapolate=True), it(q, nu=2, extrapolate=True)])
+    except Exception as e:  # noqa
+        return "error:" + type(e).__name__
+
+
+def akima_fallback_nodes(x, y) -> int:
+    """how many nodes take Akima's fill value (restated from the class docstring: weights below 1e-9 of the largest), for the distribution"""
+    if len(x) < 3:
+        return 0
+    d = numpy.diff(y) / numpy.diff(x)
+    m = numpy.concatenate([[3 * d[0] - 2 * d[1], 2 * d[0] - d[1]], d, [2 * d[-1] - d[-2], 3 * d[-1] - 2 * d[-2]]])
+    dm = numpy.abs(numpy.diff(m))
+    f12 = dm[2:] + dm[:-2]
+    return int(numpy.sum(~(f12 > 1e-9 * numpy.max(f12))))
+
+
+def ppoly_ops(ctx: Ctx, res: Result):
+    """c11.pchip / c11.akima against the real scipy classes"""
+    rng = ctx.rng
+    reps = 14 if not ctx.thorough() else 120
+    ops, metas = [], []
+    dist = {"by_kind": {}, "by_n": {}, "malformed": {}, "queries": 0, "akima_fallback_nodes": 0, "pchip_zero_interior_slopes": 0,
+            "pchip_end_corrections": 0, "bitwise_equal": 0, "compared": 0}
+    for kind in PPOLY_KINDS:
+        for _ in range(reps):
+            x, y = gen_nodes(rng, kind)
+            q = gen_queries(rng, x)
+            for name in PPOLY:
+                ops.append({"op": "c11." + name, "xs": enc(x), "ys": enc(y), "q": enc(q)})
+                metas.append((name, kind, x, y, q))
+    # constructor refusals: not increasing, repeated abscissa, one node, lengths differ, non-finite value / abscissa
+    x5 = numpy.array([1.0, 2.0, 3.0, 4.0, 5.0]); y5 = numpy.array([0.0, 1.0, 0.5, 2.0, 3.0])
+    bad = [("decreasing", x5[::-1].copy(), y5), ("repeated", numpy.array([1.0, 2.0, 2.0, 3.0]), y5[:4]), ("one_node", x5[:1], y5[:1]),
+           ("lengths", x5, y5[:4]), ("inf_value", x5, numpy.array([0.0, 1.0, -numpy.inf, 2.0, 3.0])),
+           ("nan_value", x5, numpy.array([0.0, numpy.nan, 0.5, 2.0, 3.0])), ("inf_abscissa", numpy.array([1.0, 2.0, 3.0, numpy.inf]), y5[:4])]
+    for tag, x, y in bad:
+        for name in PPOLY:
+            ops.append({"op": "c11." + name, "xs": enc(x), "ys": enc(y), "q": enc(numpy.array([1.5, 9.0]))})
+            metas.append((name, "malformed:" + tag, x, y, numpy.array([1.5, 9.0])))
+    outs = ctx.driver.ask(ops)
+    for o, (name, kind, x, y, q) in zip(outs, metas):
+        res.evaluations += 1
+        real = scipy_ppoly(name, x, y, q)
+        payload = {"class": name, "kind": kind, "xs": x.tolist(), "ys": y.tolist(), "q": q.tolist()}
+        if isinstance(real, str) or "ok" not in o:
+            same = isinstance(real, str) and "error" in o and real == "error:" + o["error"]
+            if kind.startswith("malformed:"):
+                dist["malformed"][kind[10:] + "/" + name] = real if isinstance(real, str) else "ok"
+            if not same:
+                res.disagreements.append(Disagreement("c11." + name, payload, real if isinstance(real, str) else "arrays", jsonable(o)))
+            else:
+                res.traces_validated += 1
+            continue
+        if kind.startswith("malformed:"):
+            dist["malformed"][kind[10:] + "/" + name] = "ok"
+        m = dec_arr(o["ok"])
+        dist["by_kind"][kind] = dist["by_kind"].get(kind, 0) + 1
+        dist["by_n"][len(x)] = dist["by_n"].get(len(x), 0) + 1
+        dist["queries"] += int(q.size)
+        dist["compared"] += int(m.size)
+        dist["bitwise_equal"] += int(numpy.sum((m == real) | (numpy.isnan(m) & numpy.isnan(real)))) if m.shape == real.shape else 0
+        ds = dec_arr(o["slopes"])
+        if name == "akima":
+            dist["akima_fallback_nodes"] += akima_fallback_nodes(x, y)
+        elif len(x) > 2:
+            dist["pchip_zero_interior_slopes"] += int(numpy.sum(ds[1:-1] == 0.0))
+            sec = numpy.diff(y) / numpy.diff(x)
+            dist["pchip_end_corrections"] += int((ds[0] == 0.0 and sec[0] != 0.0) or (ds[0] == 3.0 * sec[0] and sec[0] != 0.0)) \
+                + int((ds[-1] == 0.0 and sec[-1] != 0.0) or (ds[-1] == 3.0 * sec[-1] and sec[-1] != 0.0))
+        note = None
+        if m.shape != real.shape:
+            note = f"shape {real.shape} vs {m.shape}"
+        else:
+            for nu in (0, 1, 2):
+                ok, err, _ = family_close(real[nu], m[nu], rtol=1e-12)
+                if not ok:
+                    note = f"nu={nu} differs {err:.3e} of the family scale (tol 1e-12)"; break
+        # the node slopes scipy stored: c[2] of every piece and the nu=1 value at the last node
+        if note is None:
+            sl_real = real[1][:len(x)]            # the first len(x) queries are the nodes themselves
+            ok, err, _ = family_close(sl_real, ds, rtol=1e-12)
+            if not ok:
+                note = f"node slopes differ {err:.3e}"
+        if note:
+            res.disagreements.append(Disagreement("c11." + name, payload, jsonable(real[:, :4]), jsonable(m[:, :4]), note))
+        else:
+            res.traces_validated += 1
+            res.distinct_nontrivial += 1
+    res.distribution["ppoly_classes"] = dist
+
 # ----------------------------------------------------------------------------- small direct ops
 def small_ops(ctx: Ctx, res: Result):
     """lstsq_polyfit, polyder/polyval and the thinning slice directly"""
@@ -915,7 +1110,8 @@ def run(ctx: Ctx) -> Result:
     res = Result()
     res.rule = ("a case = (method, order, nv, law kind, drawn laws/volumes/grid); non-trivial = admissible case with at least one "
                 "non-Gamma-acoustic mode whose real call was compared value-by-value with the model (distinct by construction: "
-                "all continuous parameters are drawn independently)")
+                "all continuous parameters are drawn independently); plus every (node set, class) pair of the c11.pchip / c11.akima stream "
+                "whose three evaluation arrays agreed with the real scipy class")
     dist: Dict[str, Any] = {"by_method": {}, "by_law": {}, "by_nv": {}, "by_order": {}, "outcome": {}, "acoustic_input": {},
                             "ratio": {}, "ascending_volumes": 0, "malformed": {}}
     res.distribution = dist
@@ -926,6 +1122,7 @@ def run(ctx: Ctx) -> Result:
             res.oracle_failures.append(f)
 
     small_ops(ctx, res)
+    ppoly_ops(ctx, res)
 
     cases = gen_cases(ctx)
     mal = gen_malformed(ctx)
@@ -941,7 +1138,7 @@ def run(ctx: Ctx) -> Result:
         res.evaluations += 1
         m = case["method"]
         if case.get("malformed"):
-            key = f"{m}/order={case['order']}" + ("/ascending" if m in LIB and case["order"] == 3 else "")
+            key = f"{m}/order={case['order']}" + ("/" + case.get("malformed_tag", "ascending") if m in LIB and case["order"] == 3 else "")
             dist["malformed"][key] = real[0] if real[0] != "ok" else "ok"
         else:
             dist["by_method"][m] = dist["by_method"].get(m, 0) + 1
@@ -1008,6 +1205,8 @@ def run(ctx: Ctx) -> Result:
                      "(the code comment limits it to <= 6 nodes for this reason)")
     res.extra = {"tolerances": {"model_vs_code": "omega rel 1e-7 of max|omega| (library methods 1e-8); gamma, V dgamma/dV 1e-7 of "
                                                  "max(1,|gamma|,|.|); lagrange: + a-priori rounding bound",
+                                "model_vs_scipy_classes": "1e-12 of the family scale per derivative order (bit-for-bit agreement counted in "
+                                                          "input_distribution.ppoly_classes)",
                                 "oracle_exactness": "omega rel 1e-6, gamma 1e-6, V dgamma/dV 1e-5 of scale",
                                 "oracle_finite_difference": "2e-6 / 2e-5 of scale (5-point stencil, h = 4% of the node spacing)"}}
     return res
